@@ -1,5 +1,6 @@
 CONSTANTS
   LitPlusSet = {TRUE, FALSE}
+  Utf8Set = {TRUE, FALSE}
 INIT TraceInit
 NEXT TraceNext
 INVARIANTS TypeOK ContOnlyWhenWilling PayloadOnlyAsArgument
